@@ -125,6 +125,8 @@ func (t *template) layout(ctx context.Context, w io.Writer) error {
 			// Parse the template bytes to get DOM nodes
 			templateNodes, err := parser.ParseTemplateBytes(tpl.templateBytes)
 			if err == nil {
+				// the v-once elements of the page carry the same ids here as in the page's own render
+				assignSeenAttrs(filename, templateNodes)
 				inheritedSlotScope = extractSlotsFromDOM(templateNodes)
 			}
 		}
